@@ -321,17 +321,22 @@ def find_operators(expr: sympy.Expr) -> list[OperatorType]:
     """
     # replace n -> a† * a and convert number ordered forms to expressions.
     # Number operator of ladder operators need to be included separately.
-    expr = expr.doit()
+    # Also search the original expression: `doit` may evaluate a term to zero
+    # (e.g. N_f * f for a fermion f) and with it the only mention of an operator.
+    expanded = expr.doit()
     return sorted(
         set().union(
             (
                 op
                 for particle, generator in zip(operator_types, generator_types)
-                for op in (generator(atom.name) for atom in expr.atoms(particle))
+                for op in (
+                    generator(atom.name)
+                    for atom in expr.atoms(particle) | expanded.atoms(particle)
+                )
             ),
             (
                 LadderOp(atom.name)
-                for atom in expr.atoms(NumberOperator)
+                for atom in expr.atoms(NumberOperator) | expanded.atoms(NumberOperator)
                 if atom.args[1].name == "LadderOp"
             ),
         ),
